@@ -16,6 +16,7 @@ def Stop.toS : Stop → Option SFault
   | .fault .Overflow _ => some .overflow
   | .fault .ForStepZero _ => some .forStepZero
   | .fault .ExecutionTimeout _ => some .budget
+  | .fault .IndexOutOfBounds _ => some .indexOut
   | _ => none
 
 theorem Stop.toS_valueDependent {s : Stop} {f : SFault} (h : s.toS = some f) : s.valueDependent = true := by
